@@ -58,6 +58,11 @@ CLAIMED = {
    "DESIGN.md §4 C11",
    "Trusted: alias abstraction (checker/core/alias.go), the per-instance/shared type split, exemption table (3 symbols, each re-verified: sync.Once-only, receiver mutex dominates writes, idempotent memo), stdlib functions do not retain arguments.",
    "static: who-may-write over a field-based may-alias analysis (go/ssa, VTA∪CHA) restricted to the run-time call-graph region"),
+ "C15": ("other",
+   "Static decision of six structural necessary conditions for every argument value of every WASI function: memory only through the bounds-checked accessors, no use of a failed Memory.Read, wrap-prone 32-bit length arithmetic guarded or consistently wrapped (relative to every loop of the function), no guest-sized allocation before a bounds-checked access, total errno mapping, no feasible failure after removing a descriptor-table entry (callee failure conditions excluded by dominating checks). One genuine defect (fd_renumber table growth) is a known finding. Absence of all Go run-time errors is not decided.",
+   "DESIGN.md §4 C15",
+   "Trusted: SSA dominance on syntactic paths; 'guest-derived' = computed from the []uint64 parameter slice or integer parameters of helpers; recognised guard idioms (comparison with a constant that returns).",
+   "static: taint/width lint and dominance-based error-discipline rules on go/ssa"),
 }
 
 NOT_APPLICABLE = {
